@@ -174,7 +174,7 @@ VARIANTS = [
     ("C14", "reamber/quaver/lists/notes/QuaHitList.py", "        df = self.df.copy()\n        df.column += 1", "        df = self.df.copy()\n        df['keysounds'] = [list(ks) for ks in df.keysounds]\n        df.column += 1", T, ""),
     ("C10", "reamber/base/RAConst.py", "return float(msecs * RAConst.MSEC_TO_SEC)", "return round(msecs * RAConst.MSEC_TO_SEC, 3)", B, "C10.R8"),
     ("C10", "reamber/base/RAConst.py", "return float(msecs * RAConst.MSEC_TO_SEC)", "return float(RAConst.MSEC_TO_SEC * msecs)", T, ""),
-    ("C10", "reamber/base/RAConst.py", "return float(mins * RAConst.MIN_TO_MSEC)", "return mins * RAConst.MIN_TO_MSEC", B, "C10.R8"),
+    ("C10", "reamber/base/RAConst.py", "return float(mins * RAConst.MIN_TO_MSEC)", "return mins * RAConst.MIN_TO_MSEC", T, ""),  # harmless since fix F31 (the setter no longer casts)
     ("C10", "reamber/base/RAConst.py", "    SEC_TO_MSEC: float = 1000.0", "    SEC_TO_MSEC: float = 100.0", B, "C10.R8"),
     ("C10", "reamber/algorithms/timing/utils/BpmChangeBase.py", "return RAConst.MIN_TO_MSEC / self.bpm", "return RAConst.MIN_TO_MSEC / max(self.bpm, 1)", B, "C10.R4"),
     ("C10", "reamber/algorithms/timing/utils/bpm_changes_offset_to_snap.py", "        bcs_s.append(\n", "        if snap != bcs_s[-1].snap: bcs_s.append(\n", B, "C10.R9"),
@@ -185,7 +185,8 @@ VARIANTS = [
     ("C02", "reamber/base/RAConst.py", "return float(secs * RAConst.SEC_TO_MSEC)", "return float(round(secs * RAConst.SEC_TO_MSEC))", B, "C02.D"),
     ("C07", "reamber/o2jam/O2JMap.py", "        events = [event for pkg in pkgs for event in pkg.events]\n        events.sort(key=lambda x: x.measure)", "        pkgs = sorted(pkgs, key=lambda x: x.measure)\n        events = [event for pkg in pkgs for event in pkg.events]", B, "C07.R9"),
     ("C07", "reamber/o2jam/O2JMap.py", "        events.sort(key=lambda x: x.measure)", "        events = sorted(events, key=lambda x: x.measure)", T, ""),
-    ("C07", "reamber/base/RAConst.py", "return float(mins * RAConst.MIN_TO_MSEC)", "return mins * RAConst.MIN_TO_MSEC", B, "C07.D"),
+    ("C07", "reamber/base/RAConst.py", "return float(mins * RAConst.MIN_TO_MSEC)", "return mins * RAConst.MIN_TO_MSEC", T, ""),  # harmless since fix F31
+    ("C07", "reamber/base/Property.py", "            def setter(self, val, k_=k):\n                self.data[k_] = val", "            def setter(self, val, k_=k):\n                self.data[k_] = val.astype(self.data[k_].dtype) if hasattr(val, 'astype') else val", B, "C07.D"),
     ("C13", "reamber/quaver/lists/notes/QuaHoldList.py", "        df = self.df.copy()\n        df[\"EndTime\"]", "        df = self.df.astype(dict(offset=int, length=int))\n        df[\"EndTime\"]", B, "C13.D"),
     ("C09", "reamber/quaver/lists/notes/QuaHitList.py", "        df = self.df.copy()\n        df.column += 1", "        df = self.df\n        df.column += 1", B, "C09.D"),
     ("C01", "reamber/osu/OsuSampleSet.py", '        elif sample_set == "Drum":\n            return OsuSampleSet.DRUM', '        elif sample_set == "Drum":\n            return OsuSampleSet.SOFT', B, "C01.R1"),
